@@ -476,6 +476,7 @@ impl<'a> Tx<'a> {
                 return format!("treebin_drop(h, {})", a);
             }
             "Guard::unprotected" => return "()".into(),
+            "std::thread::yield_now" | "thread::yield_now" if self.ops => return "()".into(), // R63: a scheduling hint has no arena counterpart
             "Shared::null" | "Atomic::null" => return "NULL".into(),
             "Atomic::from" | "Shared::from" => return self.expr(&c.args[0]),
             "remapping_function" if self.ops => {
@@ -603,6 +604,7 @@ impl<'a> Tx<'a> {
         let name = m.method.to_string();
         match name.as_str() {
             "is_null" => return format!("({} == NULL)", self.expr(&m.receiver)),
+            "load" if self.ops && toks(&*m.receiver).replace(' ', "") == "self.next_table" => "h.map_next_table(this)".to_string(), // R62: the map's next_table field (Table::next_table is the method h.next_table(t))
             "load" => {
                 if self.self_ptr {
                     if let syn::Expr::Path(pp) = &*m.receiver {
@@ -799,6 +801,13 @@ impl<'a> Tx<'a> {
             }
             "check_guard" if self.self_ptr => "()".into(),
             "lock" if self.self_ptr => "()".into(),
+            "len" | "is_empty" if self.ops && !self.wrap && m.args.is_empty() && toks(&*m.receiver) == "self" => format!("map_{}(h, this)", name), // R61: the map's own len() / is_empty()
+            "reserve" | "try_presize" | "presize" if self.ops && !self.wrap && toks(&*m.receiver) == "self" => {
+                let args: Vec<String> = m.args.iter().filter(|a| !is_drop_arg(a)).map(|a| self.expr(a)).collect();
+                let mut all = vec!["h".to_string(), "this".to_string()];
+                all.extend(args);
+                format!("{}({})", name, all.join(", "))
+            }
             "len" if self.self_ptr && m.args.is_empty() => {
                 let r = self.expr(&m.receiver);
                 format!("h.tab_len({})", r)
@@ -1118,10 +1127,17 @@ impl<'a> Tx<'a> {
                 match n.as_str() {
                     "debug_assert" | "debug_assert_eq" | "debug_assert_ne" => {}
                     "unreachable" => self.push(ind, "assert(false); loop invariant false decreases 0int { }".into(), ln, true),
+                    "assert_eq" if self.ops => {
+                        // R31: assert_eq!(a, b) is a proof obligation
+                        match m.mac.parse_body_with(syn::punctuated::Punctuated::<syn::Expr, syn::Token![,]>::parse_terminated) {
+                            Ok(args) if args.len() >= 2 => { let a = self.expr(&args[0]); let a = self.hoist(a); let b = self.expr(&args[1]); let b = self.hoist(b); self.push(ind, format!("assert({} == {});", a, b), ln, true); }
+                            _ => self.err("assert_eq! shape", m.span()),
+                        }
+                    }
                     "assert" if self.ops => {
                         // R31: assert!(c) is a proof obligation
                         match syn::parse2::<syn::Expr>(m.mac.tokens.clone()) {
-                            Ok(c) => { let t = self.expr(&c); self.push(ind, format!("assert({});", t), ln, true); }
+                            Ok(c) => { let t = self.expr(&c); let t = self.hoist(t); self.push(ind, format!("assert({});", t), ln, true); }
                             Err(_) => self.err("assert! with a message", m.span()),
                         }
                     }
